@@ -49,6 +49,10 @@ func NewBits(p *load.Program) *Checker {
 	c := New(p)
 	c.IP.MergeIfs = false
 	c.IP.TrackBits = true
+	// callees are interpreted in the caller's path: a writer that first calls its length calculator and then its
+	// sub-writers would otherwise pair every calculator outcome with every sub-writer outcome
+	c.IP.InlineCalls = true
+	c.IP.MaxOut = 40000
 	return c
 }
 
